@@ -1,7 +1,9 @@
 /-
   Rust integer primitives used by extracted code, over `BitVec n` (generic width).
   These are the *meanings* given to the Rust method names that `extract.py` emits;
-  they are part of the trusted base (Rust semantics of overflowing_add / `as` / comparisons).
+  they are part of the trusted base (Rust semantics of the integer methods / `as` / comparisons).
+  `u<n>` values and `i<n>` values are both stored as `BitVec n` (two's complement); the translator
+  tracks which view a term has and picks the unsigned or the signed operation accordingly.
 -/
 namespace MediaSan.Rust
 
@@ -9,21 +11,56 @@ namespace MediaSan.Rust
 def overflowingAdd {n : Nat} (a b : BitVec n) : BitVec n × Bool :=
   (a + b, decide (2 ^ n ≤ a.toNat + b.toNat))
 
+/-- `u<n>::overflowing_sub`: wrapped difference and borrow. -/
+def overflowingSub {n : Nat} (a b : BitVec n) : BitVec n × Bool :=
+  (a - b, decide (a.toNat < b.toNat))
+
 /-- `u<n>::wrapping_add`. -/
 def wrappingAdd {n : Nat} (a b : BitVec n) : BitVec n := a + b
+
+/-- `u<n>::wrapping_sub`. -/
+def wrappingSub {n : Nat} (a b : BitVec n) : BitVec n := a - b
 
 /-- `u<n>::checked_add`. -/
 def checkedAdd {n : Nat} (a b : BitVec n) : Option (BitVec n) :=
   if 2 ^ n ≤ a.toNat + b.toNat then none else some (a + b)
 
+/-- `u<n>::checked_sub`. -/
+def checkedSub {n : Nat} (a b : BitVec n) : Option (BitVec n) :=
+  if a.toNat < b.toNat then none else some (a - b)
+
 /-- `u<n>::saturating_add`. -/
 def saturatingAdd {n : Nat} (a b : BitVec n) : BitVec n :=
   if 2 ^ n ≤ a.toNat + b.toNat then BitVec.allOnes n else a + b
 
+/-- `u<n>::saturating_sub`. -/
+def saturatingSub {n : Nat} (a b : BitVec n) : BitVec n :=
+  if a.toNat < b.toNat then 0 else a - b
+
+/-- `u<n>::MAX`. -/
+def uMax {n : Nat} : BitVec n := BitVec.allOnes n
+
 /-- `i<n> as u<n>` (and `u<n> as u<n>`): two's-complement reinterpretation. -/
 def asSelf {n : Nat} (a : BitVec n) : BitVec n := a
 
-/-- signed `<` against a literal, for `i<n>` values stored as `BitVec n`. -/
+/-- `i<n>::unsigned_abs`: the magnitude as `u<n>` (2^(n-1) for `MIN`). -/
+def unsignedAbs {n : Nat} (a : BitVec n) : BitVec n := if a.toInt < 0 then -a else a
+
+/-- `i<n>::wrapping_neg` (`MIN` stays `MIN`). -/
+def wrappingNeg {n : Nat} (a : BitVec n) : BitVec n := -a
+
+/-- `i<n>::saturating_neg` (`MIN` becomes `MAX`). -/
+def saturatingNeg {n : Nat} (a : BitVec n) : BitVec n :=
+  if 2 * a.toNat = 2 ^ n then BitVec.ofNat n (2 ^ n / 2 - 1) else -a
+
+/-- `i<n>::wrapping_abs` (`MIN` stays `MIN`). -/
+def wrappingAbs {n : Nat} (a : BitVec n) : BitVec n := if a.toInt < 0 then -a else a
+
+/-- `i<n>::is_negative` / `is_positive`. -/
+def isNegative {n : Nat} (a : BitVec n) : Bool := decide (a.toInt < 0)
+def isPositive {n : Nat} (a : BitVec n) : Bool := decide (a.toInt > 0)
+
+/-- signed comparisons against a literal, for `i<n>` values stored as `BitVec n`. -/
 def sLtLit {n : Nat} (a : BitVec n) (k : Int) : Bool := decide (a.toInt < k)
 def sLeLit {n : Nat} (a : BitVec n) (k : Int) : Bool := decide (a.toInt ≤ k)
 def sGtLit {n : Nat} (a : BitVec n) (k : Int) : Bool := decide (a.toInt > k)
@@ -38,5 +75,59 @@ def uGtLit {n : Nat} (a : BitVec n) (k : Int) : Bool := decide ((a.toNat : Int) 
 def uGeLit {n : Nat} (a : BitVec n) (k : Int) : Bool := decide ((a.toNat : Int) ≥ k)
 def uEqLit {n : Nat} (a : BitVec n) (k : Int) : Bool := decide ((a.toNat : Int) = k)
 def uNeLit {n : Nat} (a : BitVec n) (k : Int) : Bool := decide ((a.toNat : Int) ≠ k)
+
+/-- comparisons between two `u<n>` values. -/
+def uLt {n : Nat} (a b : BitVec n) : Bool := decide (a.toNat < b.toNat)
+def uLe {n : Nat} (a b : BitVec n) : Bool := decide (a.toNat ≤ b.toNat)
+def uGt {n : Nat} (a b : BitVec n) : Bool := decide (a.toNat > b.toNat)
+def uGe {n : Nat} (a b : BitVec n) : Bool := decide (a.toNat ≥ b.toNat)
+def uEq {n : Nat} (a b : BitVec n) : Bool := decide (a.toNat = b.toNat)
+def uNe {n : Nat} (a b : BitVec n) : Bool := decide (a.toNat ≠ b.toNat)
+
+/-- comparisons between two `i<n>` values. -/
+def sLt {n : Nat} (a b : BitVec n) : Bool := decide (a.toInt < b.toInt)
+def sLe {n : Nat} (a b : BitVec n) : Bool := decide (a.toInt ≤ b.toInt)
+def sGt {n : Nat} (a b : BitVec n) : Bool := decide (a.toInt > b.toInt)
+def sGe {n : Nat} (a b : BitVec n) : Bool := decide (a.toInt ≥ b.toInt)
+def sEq {n : Nat} (a b : BitVec n) : Bool := decide (a.toInt = b.toInt)
+def sNe {n : Nat} (a b : BitVec n) : Bool := decide (a.toInt ≠ b.toInt)
+
+/-! What the `BitVec` operations mean for `toNat` / `toInt`, without `%`: the form the C20 proof script
+    (a region split on sign and carry, every test then decided by `omega`) works with. -/
+
+theorem toNat_add' {n} (a b : BitVec n) :
+    (a + b).toNat = if a.toNat + b.toNat < 2 ^ n then a.toNat + b.toNat else a.toNat + b.toNat - 2 ^ n := by
+  have ha := a.isLt; have hb := b.isLt
+  rw [BitVec.toNat_add]
+  split
+  · exact Nat.mod_eq_of_lt ‹_›
+  · rw [Nat.mod_eq_sub_mod (by omega), Nat.mod_eq_of_lt (by omega)]
+
+theorem toNat_sub' {n} (a b : BitVec n) :
+    (a - b).toNat = if b.toNat ≤ a.toNat then a.toNat - b.toNat else a.toNat + 2 ^ n - b.toNat := by
+  have ha := a.isLt; have hb := b.isLt
+  rw [BitVec.toNat_sub]
+  split
+  · have : 2 ^ n - b.toNat + a.toNat = (a.toNat - b.toNat) + 2 ^ n := by omega
+    rw [this, Nat.add_mod_right, Nat.mod_eq_of_lt (by omega)]
+  · rw [Nat.mod_eq_of_lt (by omega)]; omega
+
+theorem toNat_neg' {n} (a : BitVec n) : (-a).toNat = if a.toNat = 0 then 0 else 2 ^ n - a.toNat := by
+  have ha := a.isLt
+  rw [BitVec.toNat_neg]
+  split
+  · simp [*]
+  · rw [Nat.mod_eq_of_lt (by omega)]
+
+theorem toInt' {n} (a : BitVec n) :
+    a.toInt = if 2 * a.toNat < 2 ^ n then (a.toNat : Int) else (a.toNat : Int) - ((2 ^ n : Nat) : Int) := by
+  simp [BitVec.toInt]
+
+theorem toNat_ofNat_lt {n} (k : Nat) (h : k < 2 ^ n) : (BitVec.ofNat n k).toNat = k := by
+  simp [BitVec.toNat_ofNat, Nat.mod_eq_of_lt h]
+
+theorem toNat_allOnes' {n} : (BitVec.allOnes n).toNat = 2 ^ n - 1 := BitVec.toNat_allOnes
+
+theorem toNat_zero' {n} : (0 : BitVec n).toNat = 0 := by simp
 
 end MediaSan.Rust
